@@ -411,3 +411,49 @@ def vibronic_aggregate_states(cx, cond, limit, nmax=2):
         cx.prove("diagonal_nonnegative[%d]" % i, data[i, i].real >= 0)
         if i < start:
             cx.prove_eq("outside_band_empty[%d]" % i, data[i, i], 0)
+
+
+@harness("C14", "relaxation_hamiltonian_option",
+         quick=[dict(nmol=2)], thorough=[dict(nmol=2)],
+         functions=[F_AB + ":AggregateBase.get_DensityMatrix", F_AB + ":AggregateBase._thermal_population",
+                    "quantarhei/core/managers.py:eigenbasis_of.__enter__"],
+         bound="dimer; the aggregate's Hamiltonian H and a separately supplied relaxation_hamiltonian G, both given by "
+               "their eigen-decompositions (different rotations of the excited block), T in [50, 400] K: the weak-"
+               "coupling thermal excited state is diagonal in the eigenbasis of G (the basis that defines it), with "
+               "unit trace and populations in the Boltzmann ratio of G's eigenvalues",
+         out="")
+def relaxation_hamiltonian_option(cx, nmol):
+    import quantarhei as qr
+    from quantarhei.core.units import kB_intK
+    agg = build_aggregate(cx, nmol)
+    N = agg.HamOp.dim
+    T = cx.real("T", 50.0, 400.0)
+    cx.assume(T >= 50, "temperature in [50, 400] K")
+    cx.assume(T <= 400)
+    blk = [[0], list(range(1, N))]
+    H, w, S = spectral_hamiltonian(cx, N, block=blk)
+    agg.HamOp._data = H.copy()
+    G, v, Sg = spectral_hamiltonian(cx, N, block=blk, tag="G")
+    for a in range(1, N - 1):
+        cx.assume(v[a + 1] - v[a] >= 0.01, "level spacings of G in [0.01, 0.2] rad/fs")
+        cx.assume(v[a + 1] - v[a] <= 0.2)
+    with cx.concrete():
+        heff = qr.Hamiltonian(data=numpy.diag(numpy.arange(N, dtype=float)))
+    heff._data = G.copy()
+    rho = agg.get_DensityMatrix(condition_type="thermal_excited_state", relaxation_theory_limit="weak_coupling",
+                                temperature=T, relaxation_hamiltonian=heff)
+    data = rho._data
+    cx.assume_denominators_nonzero("partition sum > 0")
+    if not cx.sym:
+        Sg = numpy.linalg.eigh(numpy.asarray(G, dtype=float))[1]
+        v = numpy.linalg.eigh(numpy.asarray(G, dtype=float))[0]
+    inG = numpy.dot(Sg.T, numpy.dot(data, Sg))
+    cx.prove_eq("trace", numpy.trace(data), 1)
+    for a in range(N):
+        for b in range(N):
+            if a != b:
+                cx.prove_eq("diagonal_in_defining_basis[%d,%d]" % (a, b), inG[a, b], 0, tol=1e-7)
+    cx.prove_eq("ground_state_empty", inG[0, 0], 0, tol=1e-9)
+    for a in range(1, N - 1):
+        boltz = numpy.exp(-(v[a + 1] - v[a]) / (kB_intK * T))
+        cx.prove_eq("boltzmann_ratio[%d]" % a, inG[a + 1, a + 1], boltz * inG[a, a], tol=1e-6)
